@@ -83,7 +83,14 @@ impl TwoFloat {
         let bb = s - aa;
         let da = a - aa;
         let db = b + bb;
-        Self { hi: s, lo: da - db }
+        let lo = da - db;
+        if lo.is_finite() || !s.is_finite() {
+            Self { hi: s, lo }
+        } else {
+            // an intermediate overflowed although a - b is finite (an operand of magnitude
+            // f64::MAX): the order-robust sum of a and -b has the same value
+            Self::new_add(a, -b)
+        }
     }
 
     /// Creates a new `TwoFloat` by multiplying two `f64` values using
